@@ -3,7 +3,7 @@
 from abc import ABC
 from collections.abc import Mapping
 from copy import deepcopy
-from datetime import datetime, timedelta
+from datetime import datetime, timedelta, timezone
 from pathlib import Path
 from typing import Annotated, Any, NewType, Self, TypeVar
 
@@ -174,6 +174,19 @@ class KSKKey(FrozenBaseModel):
     rsa_exponent: PositiveInt | None = None
     ds_sha256: HexDigestString | None = None
     hash_using_hsm: bool | None = None
+
+    @field_validator("valid_from", "valid_until", mode="after")
+    @classmethod
+    def validity_without_timezone_is_utc(cls, v: datetime | None) -> datetime | None:
+        """
+        A validity without time zone is UTC (as for timestamps in KSRs and SKRs).
+
+        A naive datetime would otherwise be interpreted in the local time zone of the
+        process when exported, and could not be compared to bundle times when signing.
+        """
+        if v is not None and v.tzinfo is None:
+            return v.replace(tzinfo=timezone.utc)
+        return v
 
     @field_validator("algorithm", mode="before")
     @classmethod
